@@ -951,4 +951,5 @@ M('C20','allow-overwrite-running','app/daemon/daemon.go','''		if exWorker.runnin
 M('C20','no-sort-after-append','app/daemon/daemon.go','''	sort.Slice(d.shutdownOrderWorker, func(i, j int) bool {
 		return d.workers[d.shutdownOrderWorker[i]].shutdownOrder > d.workers[d.shutdownOrderWorker[j]].shutdownOrder
 	})
-''','','order/sorted-descending')
+''','''	_ = sort.Slice
+''','order/sorted-descending')
